@@ -5,8 +5,8 @@ package main
 // lsTable is a database/sql driver that plays one table.  The real Store (ledgerstore.NewForVerif over bun + pgdialect
 // over this driver) writes to it with its own InsertLogs — a bun transaction, `COPY "<bucket>"."logs" (columns…) FROM
 // STDIN` prepared through lib/pq's CopyInSchema text, one Exec per log, an empty Exec, Commit — and reads from it with
-// its own GetLastLog / ReadLogWithIdempotencyKey (bun renders the SELECT with every argument inlined; the driver
-// evaluates the two shapes those methods produce and refuses anything else).  Nothing of InsertLogs is re-implemented
+// its own GetLastLog / ReadLogWithIdempotencyKey / GetLogs (bun renders the SELECT with every argument inlined; the driver
+// evaluates the one shape those methods produce and refuses anything else).  Nothing of InsertLogs is re-implemented
 // here: the harness only sees the arguments of the Exec calls, after database/sql has applied the driver.Valuer of each
 // (bunpaginate.BigInt -> decimal text, ledger.Time -> RFC 3339 text, ledgerstore.RawMessage -> text), which is what
 // lib/pq would put on the wire.
@@ -34,6 +34,7 @@ import (
 	"fmt"
 	"math/big"
 	"regexp"
+	"sort"
 	"strings"
 	"sync"
 	"time"
@@ -273,11 +274,13 @@ func (t *lsTable) lsColsJ(i int) J {
 	return out
 }
 
-// ---------------------------------------------------------------- the two SELECT shapes of the store's log reads
+// ---------------------------------------------------------------- the SELECT shapes of the store's log reads
 
+// SELECT * FROM "logs" WHERE (col = 'literal') [AND (…)]… ORDER BY id desc|asc LIMIT n — conditions: ledger / idempotency_key equal to a
+// literal, id compared with a number.  GetLastLog, ReadLogWithIdempotencyKey and GetLogs (every page) have this shape; anything else is refused.
 var (
-	lsSelRe   = regexp.MustCompile(`(?is)^SELECT \* FROM "logs" WHERE (.*?) ORDER BY "?id"? desc LIMIT 1$`)
-	lsCondsRe = regexp.MustCompile(`(?s)^\((idempotency_key|ledger) = '((?:[^']|'')*)'\)(?: AND (.*))?$`)
+	lsSelRe  = regexp.MustCompile(`(?is)^SELECT \* FROM "logs" WHERE (.*?) ORDER BY "?id"? (desc|asc) LIMIT (\d+)$`)
+	lsCondRe = regexp.MustCompile(`(?s)^\((?:(idempotency_key|ledger) = '((?:[^']|'')*)'|"?id"? (<=|>=|<|>) '?(\d+)'?)\)(?: AND (.*))?$`)
 )
 
 func (c *lsConn) QueryContext(ctx context.Context, q string, args []driver.NamedValue) (driver.Rows, error) {
@@ -290,21 +293,36 @@ func (c *lsConn) QueryContext(ctx context.Context, q string, args []driver.Named
 		t.refuse(q)
 		return nil, fmt.Errorf("logs table: cannot play %q", q)
 	}
+	type bound struct {
+		op string
+		n  *big.Int
+	}
 	want := map[string]string{}
+	var bounds []bound
 	for rest := m[1]; rest != ""; {
-		cm := lsCondsRe.FindStringSubmatch(rest)
+		cm := lsCondRe.FindStringSubmatch(rest)
 		if cm == nil {
 			t.refuse(q)
 			return nil, fmt.Errorf("logs table: cannot play the condition %q", rest)
 		}
-		want[cm[1]] = strings.ReplaceAll(cm[2], "''", "'")
-		rest = cm[3]
+		if cm[1] != "" {
+			want[cm[1]] = strings.ReplaceAll(cm[2], "''", "'")
+		} else {
+			n, _ := new(big.Int).SetString(cm[4], 10)
+			bounds = append(bounds, bound{cm[3], n})
+		}
+		rest = cm[5]
 	}
+	limit := 0
+	fmt.Sscan(m[3], &limit)
 	t.mu.Lock()
 	rows := append([]lsStored{}, t.rows...)
 	t.mu.Unlock()
-	best := -1
-	var bestID *big.Int
+	type hit struct {
+		i  int
+		id *big.Int
+	}
+	var hits []hit
 	for i, r := range rows {
 		ok := true
 		for col, v := range want {
@@ -312,24 +330,37 @@ func (c *lsConn) QueryContext(ctx context.Context, q string, args []driver.Named
 				ok = false
 			}
 		}
-		if !ok {
-			continue
-		}
 		id, _ := new(big.Int).SetString(r.text("id"), 10)
 		if id == nil {
 			id = big.NewInt(-1)
 		}
-		if best < 0 || id.Cmp(bestID) > 0 {
-			best, bestID = i, id
+		for _, b := range bounds {
+			cmp := id.Cmp(b.n)
+			if (b.op == "<=" && cmp > 0) || (b.op == ">=" && cmp < 0) || (b.op == "<" && cmp >= 0) || (b.op == ">" && cmp <= 0) {
+				ok = false
+			}
+		}
+		if ok {
+			hits = append(hits, hit{i, id})
 		}
 	}
+	desc := strings.EqualFold(m[2], "desc")
+	sort.SliceStable(hits, func(a, b int) bool {
+		if desc {
+			return hits[a].id.Cmp(hits[b].id) > 0
+		}
+		return hits[a].id.Cmp(hits[b].id) < 0
+	})
+	if len(hits) > limit {
+		hits = hits[:limit]
+	}
 	out := &sqtRows{cols: lsSelectCols}
-	if best >= 0 {
-		vals, err := t.lsSelectRow(best, rows[best])
+	for _, h := range hits {
+		vals, err := t.lsSelectRow(h.i, rows[h.i])
 		if err != nil {
 			return nil, err
 		}
-		out.vals = [][]driver.Value{vals}
+		out.vals = append(out.vals, vals)
 	}
 	return out, nil
 }
@@ -376,6 +407,20 @@ func lsGuardRead(f func() (*ledger.ChainedLog, error)) (core *ledger.ChainedLog,
 
 func (s *lsStore) lastLog() (*ledger.ChainedLog, error) {
 	return lsGuardRead(func() (*ledger.ChainedLog, error) { return s.st.GetLastLog(context.Background()) })
+}
+
+// list: GetLogs, one page large enough for everything (newest first)
+func (s *lsStore) list(pageSize uint64) (out []ledger.ChainedLog, err error) {
+	defer func() {
+		if e := recover(); e != nil {
+			out, err = nil, fmt.Errorf("panic: %v", e)
+		}
+	}()
+	cur, err := s.st.GetLogs(context.Background(), ledgerstore.NewGetLogsQuery(ledgerstore.NewPaginatedQueryOptions[any](nil).WithPageSize(pageSize)))
+	if err != nil {
+		return nil, err
+	}
+	return cur.Data, nil
 }
 
 func (s *lsStore) byKey(key string) (*ledger.ChainedLog, error) {
